@@ -46,6 +46,25 @@ def realise_struct(g, alias=False):
     return t
 
 
+def realise_mixed(g, parity):
+    """nodes of one parity are function blocks, the others structures: an edge a -> b is a variable (in a function
+    block) or an element (in a structure) of type b - cycles may alternate between the two kinds of declaration"""
+    t = ""
+    for i in range(1, g["n"] + 1):
+        o = outs(g, i)
+        if i % 2 == parity:
+            t += "FUNCTION_BLOCK N%d\n  VAR\n" % i
+            for j in o:
+                t += "    e%d : N%d;\n" % (j, j)
+            t += "    x : INT;\n  END_VAR\n  x := 1;\nEND_FUNCTION_BLOCK\n"
+        else:
+            t += "TYPE\n  N%d : STRUCT\n" % i
+            for j in o:
+                t += "    f%d : N%d;\n" % (j, j)
+            t += "    v : INT;\n  END_STRUCT;\nEND_TYPE\n"
+    return t
+
+
 def realise_enum_alias(g):
     """only for graphs whose out-degrees are all <= 1: enumeration aliases; a sink is the enumeration itself"""
     t = ""
@@ -81,7 +100,8 @@ def main():
         graphs += gs
     cases, meta = [], []
     for g in graphs:
-        reals = [("fb", realise_fb(g)), ("struct", realise_struct(g)), ("struct+alias", realise_struct(g, alias=True))]
+        reals = [("fb", realise_fb(g)), ("struct", realise_struct(g)), ("struct+alias", realise_struct(g, alias=True)),
+                 ("mixed-odd-fb", realise_mixed(g, 1)), ("mixed-even-fb", realise_mixed(g, 0))]
         if all(len(outs(g, i)) <= 1 for i in range(1, g["n"] + 1)):
             reals.append(("enum-alias", realise_enum_alias(g)))
         for kind, text in reals:
